@@ -64,7 +64,7 @@ func (f *Uniq) Call(s *slip.Scope, args slip.List, depth int) slip.Object {
 				}
 				continue
 			}
-			arg, target = slip.NormalizeNumber(args[pos], target)
+			arg, target = normalizeForCompare(args[pos], target)
 			switch ta := arg.(type) {
 			case slip.Fixnum:
 				if target.(slip.Fixnum) == ta {
